@@ -1,4 +1,6 @@
 import Hl7.Model.Datatypes
+import Hl7.Model.Parse
+import Hl7.Model.Message
 import Hl7.Gen.All
 /-!
 # Line-protocol driver: one operation per input line, one canonical result line per operation.
@@ -41,6 +43,18 @@ def showR (r : R (List Char)) : String :=
   | .ok t => "ok " ++ tohex t
   | .error e => "exc " ++ e.show
 
+mutual
+partial def showNode : Msg.Node → String
+  | .seg s => s.name
+  | .grp n _ kids => n ++ "(" ++ showNodes kids ++ ")"
+partial def showNodes : List Msg.Node → String
+  | [] => ""
+  | [k] => showNode k
+  | k :: ks => showNode k ++ "," ++ showNodes ks
+end
+
+def optHex (o : Option (List Char)) : String := match o with | some t => "s" ++ tohex t | none => "-"
+
 def handle (line : String) : String :=
   match line.splitOn " " with
   | ["ESC", v27, ec, hx] =>
@@ -53,6 +67,37 @@ def handle (line : String) : String :=
       let d : Defaults := { Defaults.std with strict := dlvl == "S" }
       showR ((Datatypes.factory T.base d dt (unhex hx.toList) (lvl == "S")).map (Datatypes.encLeaf ec))
     | _, _ => "bad-args"
+  | ["COMP", ver, lvl, dlvl, ec, name, dt, hx] =>
+    match tablesFor ver, parseEC ec with
+    | some T, some ec =>
+      let d : Defaults := { Defaults.std with strict := dlvl == "S" }
+      showR ((Pe.component T d (unhex hx.toList) (optS name) (optS dt) ec (lvl == "S") none).map (Pe.encComponent T ec))
+    | _, _ => "bad-args"
+  | ["SEG", ver, lvl, dlvl, ec, hx] =>
+    match tablesFor ver, parseEC ec with
+    | some T, some ec =>
+      let d : Defaults := { Defaults.std with strict := dlvl == "S" }
+      showR (do let sg ← Pe.segment T d (unhex hx.toList) ec (lvl == "S"); Pe.encSegment T ec sg)
+    | _, _ => "bad-args"
+  | ["MSG", lvl, dlvl, dver, fg, hx] =>
+    let d : Defaults := { Defaults.std with strict := dlvl == "S", version := dver }
+    match Msg.parseMessage Hl7.Gen.tables d (unhex hx.toList) (lvl == "S") (fg == "1") with
+    | .error e => "exc " ++ e.show
+    | .ok m =>
+      match tablesFor m.version with
+      | none => "bad-version"
+      | some T =>
+        match Msg.encMessage T m with
+        | .ok t => "ok " ++ tohex t ++ " " ++ showNodes m.kids
+        | .error e => "encexc " ++ e.show ++ " " ++ showNodes m.kids
+  | ["MTYPE", hx] =>
+    match Msg.getMessageType (unhex hx.toList) with
+    | .ok o => "ok " ++ optHex o
+    | .error e => "exc " ++ e.show
+  | ["MINFO", hx] =>
+    match Msg.getMessageInfo (unhex hx.toList) with
+    | .ok (ec, st, ver) => "ok " ++ tohex ([ec.field, ec.comp, ec.sub, ec.rep, ec.esc] ++ ec.trunc.toList) ++ " " ++ optHex st ++ " " ++ optHex ver
+    | .error e => "exc " ++ e.show
   | _ => "bad-op"
 
 partial def loop (h : IO.FS.Stream) (out : IO.FS.Stream) : IO Unit := do
